@@ -96,3 +96,21 @@ def highres_ref_differs(case, viol):
         hist = meek_prf.count(cd['ncand'], cd['nseats'], ballots, tie, P=21, OM=6)
         winners = sorted(back[x] for x in hist[-1][1])
     return winners != o.elected
+
+
+def qpq_tolerance_order(case, viol):
+    """F26: qpq with quotients that differ by less than the guarded comparison tolerance without being identical (electorates of
+    about 10^10 ballots and more): the builtin max()/min() over such values return the first of them, so "the highest quotient
+    exceeds the quota" depends on candidate order and the count leaves the reference history.  Identity: rule qpq AND the count's
+    own statistics own up to it (maxDiff above a thousandth of the tolerance: two clearly different values compared equal).  On
+    ordinary electorates maxDiff is truncation noise (a few units of 10^-18), so a deviation from the published procedure there stays new."""
+    import re
+    from . import drive
+    c = case.get('case', case)
+    if c.get('rule') != 'qpq':
+        return False
+    o = drive.run(c)
+    rep = (o.record or {}).get('arithmetic_report') or ''
+    m = re.search(r'maxDiff:\s*(\d+).*?geps:\s*(\d+)', rep, re.S)
+    # "near the tolerance" as in C13: truncation noise of equal quotients (a few units of 10^-18) does not count
+    return bool(m) and int(m.group(1)) * 1000 > int(m.group(2))
